@@ -67,6 +67,8 @@ QuorumCode(t, total) == t > (total * 2) \div 3
 QuorumStmt(t, total) == 3 * t > 2 * total
 ASSUME \A total \in 0..12 : \A t \in 0..12 : QuorumCode(t, total) = QuorumStmt(t, total)
 
+RECURSIVE Concat(_)
+Concat(s) == IF Len(s) = 0 THEN "" ELSE s[1] \o Concat(Tail(s))
 Min(a, b) == IF a < b THEN a ELSE b
 Abs(x) == IF x < 0 THEN -x ELSE x
 
@@ -187,9 +189,12 @@ BlockOfKind(kind, h) ==
     [] kind \in CommitKinds ->
          \* (where the set leaves no room for the pattern the liar can only send the genuine commit)
          IF h = 1 \/ SlotsOfKind(kind, ValsAt[h - 1], GenSlots(h - 1)) = GenSlots(h - 1) THEN CanonBlock(h)
-         ELSE [h |-> h, id |-> nm, uid |-> nm,
-               lc |-> [h |-> h - 1, bid |-> CanonBID(h - 1), slots |-> SlotsOfKind(kind, ValsAt[h - 1], GenSlots(h - 1))],
-               valid |-> TRUE]
+         \* (named by the slot pattern: two kinds that yield the same pattern yield the same bytes)
+         ELSE LET sl == SlotsOfKind(kind, ValsAt[h - 1], GenSlots(h - 1))
+                  sn == "S" \o Concat(sl) \o "@" \o ToString(h)
+              IN [h |-> h, id |-> sn, uid |-> sn,
+                  lc |-> [h |-> h - 1, bid |-> CanonBID(h - 1), slots |-> sl],
+                  valid |-> TRUE]
 
 \* ------------------------------------------------------------------ node state (sm.State as far as it matters)
 \* st = [h, lastID]: LastBlockHeight / LastBlockID.  The validator set the node's own state
